@@ -48,6 +48,10 @@ func c02(c *core.Check) {
 		{Set: "default", Def: "StructLikeWrite", DotRel: g, DotType: "StructLike", Lists: []int{0, 1, 2}, Cats: []string{"I32", "Struct"}, Fixed: map[string]int{"Features.ApacheAdaptor": 0}},
 		{Set: "default", Def: "StructLikeReadField", DotRel: g, DotType: "StructLike", Lists: []int{1}, Fixed: noMask},
 		{Set: "default", Def: "StructLikeWriteField", DotRel: g, DotType: "StructLike", Lists: []int{1}, Fixed: noMask},
+		// elements of containers are read into storage prepared by InitDefault(), top-level values into NewX(): both must
+		// start from the same declared defaults, otherwise Read(ref) shows different values depending on where the struct sits
+		{Set: "default", Def: "StructLike", Name: "StructLike(shell)", DotRel: g, DotType: "StructLike", Stub: c02shellStubs, Lists: []int{0, 1, 2}, Cats: []string{"I32", "Struct"}, Fixed: c02shellQuiet},
+		{Set: "slim", Def: "StructLike", Name: "StructLike(shell)", DotRel: g, DotType: "StructLike", Stub: c02shellStubs, Lists: []int{0, 1, 2}, Cats: []string{"I32", "Struct"}, Fixed: c02shellQuiet},
 	}
 	agg := newAggregate()
 	atoms := map[string]map[string]bool{}
@@ -81,20 +85,25 @@ func c02(c *core.Check) {
 			c02writeField(agg, r)
 		case "StructLikeReadField":
 			c02readField(agg, r)
+		case "StructLike":
+			sub := newAggregate()
+			c06defaults(sub, r)
+			relay(sub, agg, "read-storage-defaults-agree", k, []string{"default-siblings"})
 		}
 	})
 	agg.flush(c, map[string]string{
-		"read-typestate":          "field loop consumes exactly one value per header; StructBegin..StructEnd..return nil",
-		"read-guard":              "reader guarded by the spec wire type of its field; else arm skips; default arm consumes",
-		"read-required":           "isset set after the reader; tested before return nil",
-		"write-typestate":         "StructBegin, fields in order, [unknown], FieldStop, StructEnd, return nil",
-		"write-union-count":       "CountSetFields != 1 error dominates WriteStructBegin",
-		"writefield-frame":        "FieldBegin(name, spec const, id) .. value events of the shape .. FieldEnd; only optional fields may skip",
-		"readfield-value":         "value events equal the shape's prescription; result assigned to the field",
-		"container-header":        "element wire types per spec; count is len(target)",
-		"read-struct-initialised": "struct elements read into zero storage get InitDefault() before Read",
+		"read-typestate":              "field loop consumes exactly one value per header; StructBegin..StructEnd..return nil",
+		"read-guard":                  "reader guarded by the spec wire type of its field; else arm skips; default arm consumes",
+		"read-required":               "isset set after the reader; tested before return nil",
+		"write-typestate":             "StructBegin, fields in order, [unknown], FieldStop, StructEnd, return nil",
+		"write-union-count":           "CountSetFields != 1 error dominates WriteStructBegin",
+		"writefield-frame":            "FieldBegin(name, spec const, id) .. value events of the shape .. FieldEnd; only optional fields may skip",
+		"readfield-value":             "value events equal the shape's prescription; result assigned to the field",
+		"container-header":            "element wire types per spec; count is len(target)",
+		"read-struct-initialised":     "struct elements read into zero storage get InitDefault() before Read",
+		"read-storage-defaults-agree": "InitDefault() (container elements) and NewX() (everything else) prepare the same declared defaults",
 	})
-	for _, k := range []string{"read-typestate", "read-guard", "write-typestate", "writefield-frame", "readfield-value", "read-struct-initialised"} {
+	for _, k := range []string{"read-typestate", "read-guard", "write-typestate", "writefield-frame", "readfield-value", "read-struct-initialised", "read-storage-defaults-agree"} {
 		c.Min(k, 1)
 	}
 	// (5) flags
@@ -116,6 +125,9 @@ func c02(c *core.Check) {
 			fmt.Sprintf("feature(s) %v now influence the Read/Write code although documented as presentation-only", extra))
 	}
 }
+
+var c02shellStubs = []string{"FieldGetOrSet", "FieldIsSet", "StructLikeRead", "StructLikeReadField", "StructLikeWrite", "StructLikeWriteField", "StructLikeDeepEqual", "StructLikeDeepEqualField"}
+var c02shellQuiet = map[string]int{"Features.KeepUnknownFields": 0, "Features.WithFieldMask": 0, "Features.GenerateTypeMeta": 0, "Features.JSONStringer": 0, "Features.ReserveComments": 0, "Features.GenDeepEqual": 0}
 
 // ---- tables
 func c02tables(c *core.Check) {
